@@ -45,6 +45,8 @@ structure Ctx where
   queue : List Nat
   tmpFail : Bool
   secs : List Sec
+  /-- regions reserved earlier in the case, as observed on the implementation: (first page, page count) -/
+  resv : List (Nat × Nat)
 
 def oracle (c : Ctx) (off : Nat) : Option Fails :=
   let pre := c.pre; let post := c.post
@@ -56,7 +58,9 @@ def oracle (c : Ctx) (off : Nat) : Option Fails :=
   let domain := inRange.all (fun s => s.size ≥ 1 && s.addr + s.size ≤ 2 ^ 64 && (s.addr - off) / 4096 + s.size / 4096 + 2 < 2 ^ 40) &&
     distinctCount (secPages.map p36) = secPages.length && secPages.all (fun p => pageIdx (p36 p) 0 ≠ 511)
   if !domain then none else
-  let rsvPages := (List.range ((tempAddr - pre.cursor + 4095) / 4096)).map (pre.cursor / 4096 + ·)
+  -- the reserved pages are the ones the implementation handed out earlier in this case (not whatever the
+  -- reservation cursor says now: a cursor garbled by a failed request must not hide them)
+  let rsvPages := (c.resv.flatMap fun (p, n) => (List.range n).map (p + ·)).mergeSort (· ≤ ·)
   let rsvOld := rsvPages.map fun p => (p, leafOf pre.mem oldRoot (p36 p))
   let rsvAllMapped := rsvOld.all fun (_, l) => match l with | .entry e => entPresent e | _ => false
   if rsvOld.any (fun (_, l) => match l with | .huge _ => true | _ => false) then none else
@@ -103,6 +107,7 @@ structure CSt where
   queue : List Nat := []
   tmpFail : Bool := false
   secs : List Sec := []
+  resv : List (Nat × Nat) := []
 
 def processLine (st : CSt) (line : String) : IO CSt := do
   match line.splitOn " | " with
@@ -123,9 +128,14 @@ def processLine (st : CSt) (line : String) : IO CSt := do
       IO.println s!"MISMATCH case={st.caseId} unparsable observation: {line}"
       return st
     | some post =>
-      if name = "init" then st := { st with queue := [], tmpFail := false, secs := [] }
+      if name = "init" then st := { st with queue := [], tmpFail := false, secs := [], resv := [] }
+      -- a successful reservation (or a region whose mapping failed after the reservation) hands out
+      -- the pages between the new and the old cursor
+      if (name = "reserve" || name = "region") && !post.aborted && (post.code = 0 || (name = "region" && post.code = 4))
+          && post.cursor < st.prev.cursor && st.prev.cursor - post.cursor ≤ 2 ^ 32 then
+        st := { st with resv := (post.cursor / 4096, (st.prev.cursor - post.cursor) / 4096) :: st.resv }
       if name = "setup" then
-        let c : Ctx := { pre := st.prev, post := post, queue := st.queue, tmpFail := st.tmpFail, secs := st.secs }
+        let c : Ctx := { pre := st.prev, post := post, queue := st.queue, tmpFail := st.tmpFail, secs := st.secs, resv := st.resv }
         match oracle c (op.getD 0 0) with
         | none => st := { st with stats := st.stats.bump (if post.aborted then s!"abort_{post.code}" else "out_of_domain") }
         | some fails =>
